@@ -624,7 +624,7 @@ def every_loaded_rate_applied(F, rep):
                    f"`{b.short}` puts parsed rates into the cache only under {extra[:2]}: a supplied rate that fails the test is dropped without a message and the "
                    "bundled rate of that month stays in force", b.loc(t["sp"]), key=f"R6:{b.short}:conditional-insert")
     rep.count("cache_fill_sites", n)
-    if n < 2:
+    if n < 1:
         rep.unresolved("R6", "cache-fill", f"only {n} sites filling the FX cache found in the loader (bundled and folder expected)")
 
 
